@@ -49,6 +49,9 @@ ASSUMPTIONS = [
     'its natural_formula (H[1] -> H) and labile_formula (the classes have no density attribute of their own)',
     'only the space character is "space"; the record name returned by the FASTA readers is not constrained',
     'atomic masses from the independent reader pvmon/ref/masses.py; N_A from periodictable.constants',
+    'when the table source is not written as literal rows of calls named "_" (refactored source) the reference takes '
+    'each unambiguous residue from the public tables fasta.AMINO_ACID_CODES / RNA_BASES / DNA_BASES and averages the '
+    'ambiguity codes itself over their IUPAC meaning; the evidence notes which route was used',
 ]
 
 PIN_IS_VIOLATION = False     # residue row != transcription is reported as a violation (see ASSUMPTIONS)
@@ -61,25 +64,43 @@ _state = {}
 
 
 # ------------------------------------------------------------------ setup
+def _watch(ctx, reach, owner, attr, label, why):
+    """Reach counter on a library function looked up by name; a private helper that is absent (renamed,
+    inlined) only loses its counter: the requirement on it is waived."""
+    fn = getattr(owner, attr, None)
+    fn = getattr(fn, '__func__', fn)
+    if getattr(fn, '__code__', None) is None:
+        ctx.count('anchor_missing.reach.' + label)
+        ctx.note('%s.%s not found (refactored source?): reach counter %r is evidence only, requirement waived; %s'
+                 % (getattr(owner, '__name__', owner), attr, label, why))
+        return False
+    reach.watch(fn, label)
+    return True
+
+
 def setup(ctx):
     from periodictable import fasta, formulas
     from ..ref.fasta_ref import FastaRef
     from ..statemon import Reach
-    _state['ref'] = FastaRef()
+    R = _state['ref'] = FastaRef()
+    ctx.info['reference_route'] = R.route
+    ctx.note('reference model route: %s - %s' % (R.route, R.route_note))
+    ctx.count('reference.route.' + R.route)
     reach = Reach()
     reach.watch(fasta.Sequence.__init__, 'Sequence.__init__')
     reach.watch(fasta.Molecule.__init__, 'Molecule.__init__')
     reach.watch(fasta.read_fasta, 'read_fasta')
     reach.watch(fasta.Sequence.load, 'Sequence.load')
     reach.watch(fasta.Sequence.loadall, 'Sequence.loadall')
-    reach.watch(fasta._guess_type_from_filename, 'guess_type')
+    _watch(ctx, reach, fasta, '_guess_type_from_filename', 'guess_type',
+           'the typing by extension is judged through Sequence.load / loadall on every typed and untyped extension')
     if hasattr(fasta, '_code_average'):
-        reach.watch(fasta._code_average, 'code_average')
+        _watch(ctx, reach, fasta, '_code_average', 'code_average', 'ambiguity rows are judged through the code tables')
     try:
         reach.watch_line_matching(formulas.formula, 'fasta.Sequence(', 'formula.prefix_dispatch')
-        _state['prefix_line'] = True
-    except LookupError:
-        _state['prefix_line'] = False
+    except Exception as exc:  # noqa - no source available for formula(): the line counter is evidence only
+        ctx.count('anchor_missing.reach.formula.prefix_dispatch')
+        ctx.note('source of formulas.formula not available (%s); prefix line counter not attached' % type(exc).__name__)
     reach.start()
     _state['reach'] = reach
     tmp = os.path.join(HERE, 'out', 'C18', 'tmp', 's%02d-%d' % (ctx.shard, os.getpid()))
@@ -104,8 +125,8 @@ def finish(ctx):
     ctx.require('reach.Sequence.load', 5, 'Sequence.load must be exercised')
     ctx.require('reach.Sequence.loadall', 5, 'Sequence.loadall must be exercised')
     ctx.require('reach.guess_type', 10, 'the extension typing must be exercised')
-    if _state.get('prefix_line'):
-        ctx.require('reach.formula.prefix_dispatch', 50, 'formula() must take the sequence-prefix branch')
+    ctx.require('reach.formula.prefix_dispatch', 50, 'formula() must take the sequence-prefix branch')
+    ctx.require('eval.prefix', 50, 'the prefix route must have been compared with the sequence classes')
     ctx.require('eval.table-row', 61, 'every row of the three code tables must be compared')
     for ext in sorted(EXT_TYPE):
         ctx.require('ext.' + ext, 2, 'files with the typed extension %s must be loaded' % ext)
@@ -360,6 +381,8 @@ def check_table_row(ctx, case):
     ctx.evaluated(what='table-row')
     ctx.distinct_case(('row', typ, code))
     live_table = fasta.CODE_TABLES[typ]
+    if R.route == 'data':
+        ctx.count('observe.table_row.reference_from_public_tables')
     if set(live_table) != set(R.residue[typ]):
         ctx.violation('%s table holds codes %s, its source rows define %s'
                       % (typ, ''.join(sorted(live_table)), ''.join(R.codes(typ))), field='codes')
@@ -415,11 +438,27 @@ def check_code_average(ctx, case):
     from periodictable import fasta
     R = _state['ref']
     typ, members = case['type'], case['bases']
-    if not hasattr(fasta, '_code_average'):
+    fn = getattr(fasta, '_code_average', None)
+    if fn is None:
         ctx.count('observe.code_average_absent')
         return
     table = {'aa': fasta.AMINO_ACID_CODES, 'rna': fasta.RNA_BASES, 'dna': fasta.DNA_BASES}[typ]
-    f, vol, q = fasta._code_average(members, table)
+    # a private helper: its signature / return form may change; then the call is not judged
+    try:
+        import inspect
+        nparams = len(inspect.signature(fn).parameters)
+    except (TypeError, ValueError):
+        nparams = 2
+    if nparams != 2:
+        ctx.count('contract.code_average.unrecognised_call')
+        return
+    out = fn(members, table)
+    try:
+        f, vol, q = out
+        f.atoms
+    except (TypeError, ValueError, AttributeError):
+        ctx.count('contract.code_average.unrecognised_call')
+        return
     atoms, v, c = R._average([R.bases[typ][b] for b in members])
     what = '_code_average(%r, %s)' % (members, typ)
     ctx.distinct_case(('avg', typ, members))
